@@ -617,3 +617,161 @@ Qed.
 Lemma reachable_inv cap0 auto0 canc npolls progs es : progs_ok progs ->
   Inv (fst (run step (init cap0 auto0 canc npolls progs) es)).
 Proof. intros Hp. apply run_invariant; [exact step_inv|apply init_inv; exact Hp]. Qed.
+
+(** * Statements *)
+
+(** Case analysis of a step without using the invariant. *)
+Ltac step_split0 s e :=
+  unfold step, step_with;
+  destruct e as [[|?k]|?i];
+  [ ring_split s
+  | unfold fstep, call_start, add_ok, add_failed, sq_full; cbv beta zeta;
+    destruct (f_pc (thr s k)) eqn:Hpc;
+    destruct (f_prog (thr s k)) as [|[?i ?w|?i|] ?r] eqn:Hprog;
+    split_matches
+  | cbv beta iota zeta; unfold kcomplete; split_matches ];
+  expose_frames; ssimpl.
+
+Definition parked_of (out : list obs) : list N :=
+  flat_map (fun o => match o with OParked _ w => [w] | _ => [] end) out.
+Definition bwoken_of (out : list obs) : list N :=
+  flat_map (fun o => match o with OWakeB w => [w] | _ => [] end) out.
+Definition frees_of (i : nat) (out : list obs) : nat :=
+  length (filter (fun o => match o with OFree j _ => Nat.eqb j i | _ => false end) out).
+Definition is_cancel (i : nat) (e : sqe) : bool := match e with Cancel j => Nat.eqb j i | Submit _ => false end.
+
+(** ** C03, completions: no lost wake-up under interleaving.
+
+    Ghosts: [g_lastw i] is the waker of the most recent poll of operation [i] that returned
+    Pending ([None] once a poll returned Ready), [g_woken i] says that the dispatch of its
+    completion has invoked that waker since; clauses (G1)-(G3) pin this meaning to the
+    observations of single steps, for arbitrary states. The status becomes [Done] exactly in the
+    ring thread's dispatch step of the operation's completion — lock, [Shared::update], unlock and
+    [Waker::wake] are one segment (G4) — so "[o_st = Done]" is "the dispatch of the readying
+    completion has finished".
+
+    Main clause: in EVERY state reachable by ANY interleaving of any number of future threads
+    (programs obeying [progs_ok]) with the ring thread and the kernel: if the most recent poll
+    of [i] returned Pending with waker [w] and the readying completion has been dispatched, [w]
+    — the LATEST waker, also when polls replaced it — has been invoked since that poll. *)
+Definition race_readying_completion_wakes_latest_waker : Prop :=
+  (forall cap0 auto0 canc npolls progs es, progs_ok progs ->
+     let s := fst (run step (init cap0 auto0 canc npolls progs) es) in
+     forall i w, g_lastw (ops s i) = Some w -> o_st (ops s i) = Done -> g_woken (ops s i) = true)
+  (* (G1) a poll that returns Pending (either way) records its waker, not yet woken *)
+  /\ (forall s e i w, In (OPending i w) (snd (step s e)) \/ In (OParked i w) (snd (step s e)) ->
+        g_lastw (ops (fst (step s e)) i) = Some w /\ g_woken (ops (fst (step s e)) i) = false)
+  (* (G2) nothing else changes it, except a poll returning Ready *)
+  /\ (forall s e i, g_lastw (ops (fst (step s e)) i) <> g_lastw (ops s i) ->
+        (exists w, In (OPending i w) (snd (step s e)) \/ In (OParked i w) (snd (step s e)))
+        \/ In (OReady i) (snd (step s e)))
+  (* (G3) [g_woken] is set only by a step of the ring thread that invokes exactly that waker *)
+  /\ (forall s e i, g_woken (ops s i) = false -> g_woken (ops (fst (step s e)) i) = true ->
+        e = T 0 /\ exists w, g_lastw (ops s i) = Some w /\ In (OWake w) (snd (step s e)))
+  (* (G4) the status becomes Done only in the ring thread's dispatch step, which leaves the mutex free *)
+  /\ (forall s e i, o_st (ops s i) <> Done -> o_st (ops (fst (step s e)) i) = Done ->
+        e = T 0 /\ (r_pc s = RDisp \/ r_pc s = RDispSpin) /\ o_holder (ops (fst (step s e)) i) = None).
+
+Lemma race_readying_completion_wakes_latest_waker_holds : race_readying_completion_wakes_latest_waker.
+Proof.
+  split; [|split; [|split; [|split]]].
+  - intros cap0 auto0 canc npolls progs es Hp s i w Hl Hd.
+    exact (inv_B _ (reachable_inv cap0 auto0 canc npolls progs es Hp) i w Hd Hl).
+  - intros s e i w. step_split0 s e; intros [H|H]; cbn [In] in H;
+      repeat (destruct H as [H|H]; try discriminate); try contradiction;
+      try (apply in_map_iff in H; destruct H as [? [? ?]]; discriminate);
+      injection H as <- <-; rewrite upd_same; ssimpl; auto.
+  - intros s e i0. step_split0 s e; intros H; try (exfalso; apply H; reflexivity);
+      try (updcase i0 i; [|exfalso; apply H; reflexivity]); ssimpl;
+      try (exfalso; apply H; reflexivity);
+      try (left; eexists; left; left; reflexivity);
+      try (left; eexists; right; left; reflexivity);
+      try (right; left; reflexivity).
+  - intros s e i0. step_split0 s e; intros H0 H1; try congruence;
+      try (updcase i0 i; [|congruence]); ssimpl; try congruence.
+    all: try (match goal with Hw : o_waker (ops ?s0 ?i1) = Some ?n |- _ =>
+        split; [reflexivity|];
+        rewrite H0 in H1; cbn [orb] in H1; unfold waker_eqb in H1; rewrite Hw in H1;
+        destruct (g_lastw (ops s0 i1)) as [lw|]; [|discriminate];
+        apply N.eqb_eq in H1; subst; eexists; split; [reflexivity|left; reflexivity] end).
+    all: rewrite H0 in H1; match goal with Hw : o_waker _ = None |- _ => rewrite Hw in H1 end; discriminate.
+  - intros s e i0. step_split0 s e; intros H0 H1; try congruence;
+      try (updcase i0 i; [|congruence]); ssimpl; try congruence; try discriminate.
+    all: split; [reflexivity|split; [rewrite ?Hpc; auto|]].
+    all: rewrite ?Nat.eqb_refl; ssimpl; try assumption; try reflexivity.
+Qed.
+
+Lemma bwoken_of_wakes l : bwoken_of (map OWakeB l) = l.
+Proof. induction l as [|x l IH]; [reflexivity|]. cbn [map bwoken_of flat_map app]. f_equal. exact IH. Qed.
+Lemma parked_of_wakes l : parked_of (map OWakeB l) = [].
+Proof. induction l as [|x l IH]; [reflexivity|]. exact IH. Qed.
+Lemma bwoken_of_consumed l : bwoken_of (map OConsumed l) = [].
+Proof. induction l as [|x l IH]; [reflexivity|]. exact IH. Qed.
+Lemma parked_of_consumed l : parked_of (map OConsumed l) = [].
+Proof. induction l as [|x l IH]; [reflexivity|]. exact IH. Qed.
+
+(** ** C03, queue full: parked wakers under interleaving.
+
+    (a) A poll that returns Pending because the queue was full has pushed its waker at the end of
+    the blocked list in the step in which it returns (the [OParked] observation).
+    (b) Ledgers: [g_parked] / [g_bwoken] are exactly the wakers parked / woken by
+    [wake_blocked_futures] so far, in order.
+    (c) Conservation, every reachable state: every waker ever parked is on the blocked list, in
+    the hands of a running [wake_blocked_futures] (between its two lock acquisitions), or has been
+    woken by it: none is lost — whatever interleaving of pushes with the take / re-queue.
+    (d) The try-lock step of [wake_blocked_futures] (reachable states): it wakes the first
+    [min available |list|] wakers of the list as it is at that moment, oldest first, where
+    [available >= 1] is at least the number of slots free at that moment (submissions queued
+    since the two loads only make the snapshot an over-estimate of the queued entries); so the
+    oldest parked waker is always among them.
+    (e) After the repair of H15 every [Ring::poll] ends with [wake_blocked_futures]: the head store
+    is followed by the two loads, and the try-lock step is reached whenever the queue has room at
+    the second load. Hence every poll that ends while the queue has room wakes the oldest parked
+    waker, whether or not anything completed. (As in the atomic model, with more parked wakers
+    than free slots the younger ones wait for a later poll.) *)
+Definition race_parked_waker_is_woken : Prop :=
+  (forall s e i w, In (OParked i w) (snd (step s e)) -> blocked (fst (step s e)) = blocked s ++ [w])
+  /\ (forall s e, g_parked (fst (step s e)) = g_parked s ++ parked_of (snd (step s e))
+               /\ g_bwoken (fst (step s e)) = g_bwoken s ++ bwoken_of (snd (step s e)))
+  /\ (forall cap0 auto0 canc npolls progs es, progs_ok progs ->
+       let s := fst (run step (init cap0 auto0 canc npolls progs) es) in
+       Permutation (g_parked s) (g_bwoken s ++ blocked s ++ r_rest s)
+       /\ (r_pc s <> RWbLock -> r_rest s = [])
+       /\ (r_pc s = RWbTry ->
+             let n := Nat.min (r_avail s) (length (blocked s)) in
+             snd (step s (T 0)) = map OWakeB (firstn n (blocked s))
+             /\ 1 <= r_avail s
+             /\ (cap s <= N.of_nat (r_avail s) + (sqt s - sqh s))%N
+             /\ (forall w r, blocked s = w :: r -> In (OWakeB w) (snd (step s (T 0)))))
+       /\ (r_pc s = RStoreHead -> r_pc (fst (step s (T 0))) = RWbH /\ r_end (fst (step s (T 0))) = true)
+       /\ (r_pc s = RWbH -> r_pc (fst (step s (T 0))) = RWbT)
+       /\ (r_pc s = RWbT -> (sqt s - sqh s < cap s)%N -> r_pc (fst (step s (T 0))) = RWbTry)).
+
+Lemma race_parked_waker_is_woken_holds : race_parked_waker_is_woken.
+Proof.
+  split; [|split].
+  - intros s e i w. step_split0 s e; intros H; cbn [In] in H;
+      repeat (destruct H as [H|H]; try discriminate); try contradiction;
+      try (apply in_map_iff in H; destruct H as [? [? ?]]; discriminate).
+    injection H as <- <-. reflexivity.
+  - intros s e.
+    step_split0 s e;
+      rewrite ?bwoken_of_wakes, ?parked_of_wakes, ?bwoken_of_consumed, ?parked_of_consumed;
+      cbn [parked_of bwoken_of flat_map app]; rewrite ?app_nil_r; split; reflexivity.
+  - intros cap0 auto0 canc npolls progs es Hp s.
+    pose proof (reachable_inv cap0 auto0 canc npolls progs es Hp) as HI. fold s in HI.
+    pose proof (inv_wb _ HI) as [Hw1 [Hw2 Hw3]]. pose proof (inv_sq _ HI) as [Hle Hlen].
+    split; [exact (inv_park _ HI)|]. split; [exact Hw3|].
+    split; [|split; [|split]].
+    + intros Hpc. destruct (Hw2 Hpc) as [Ha Hb]. cbv zeta.
+      assert (Hout : snd (step s (T 0)) = map OWakeB (firstn (Nat.min (r_avail s) (length (blocked s))) (blocked s))).
+      { unfold step, step_with, rstep_with. rewrite Hpc.
+        destruct (blocked s) as [|x l]; [cbn [snd]; rewrite firstn_nil; reflexivity|reflexivity]. }
+      split; [exact Hout|]. split; [exact Ha|]. split; [exact Hb|].
+      intros w r Hbl. rewrite Hout, Hbl. cbn [length].
+      destruct (r_avail s) as [|a]; [lia|]. cbn [Nat.min firstn map In]. left; reflexivity.
+    + intros Hpc. unfold step, step_with, rstep_with. rewrite Hpc. split; reflexivity.
+    + intros Hpc. unfold step, step_with, rstep_with. rewrite Hpc. reflexivity.
+    + intros Hpc Hroom. unfold step, step_with, rstep_with. rewrite Hpc. rewrite (Hw1 Hpc).
+      destruct (Nat.eqb_spec (N.to_nat (cap s - (sqt s - sqh s))) 0) as [Hz|Hz]; [lia|reflexivity].
+Qed.
